@@ -239,6 +239,20 @@ theorem C13_uses_total (db : Db) : ∃ sb, usesInfo db db.fuel = .ok sb :=
 
 /-! ## `uses` is the inverse of the listings -/
 
+/-- **What `eups uses` prints** (`app.printUses`): a row for exactly the users of the query that are required, or —
+with `--optional` — for all of them; `--depth` has no influence (the code hands it to `Uses.invert`, which ignores it). -/
+theorem C13_printed_users (us : List User) (showOptional : Bool) (depth : Nat) (row : Str × Str × Option Str × Bool) :
+    row ∈ printUses us showOptional depth ↔
+      ∃ u ∈ us, (showOptional = true ∨ u.optional = false) ∧ row = (u.name, u.ver, u.need, u.optional) := by
+  unfold printUses
+  simp only [List.mem_map, List.mem_filter, Bool.or_eq_true, Bool.not_eq_true']
+  constructor
+  · rintro ⟨u, ⟨hu, hf⟩, rfl⟩; exact ⟨u, hu, hf, rfl⟩
+  · rintro ⟨u, hu, hf, rfl⟩; exact ⟨u, ⟨hu, hf⟩, rfl⟩
+
+theorem C13_printed_users_depth (us : List User) (showOptional : Bool) (d1 d2 : Nat) :
+    printUses us showOptional d1 = printUses us showOptional d2 := rfl
+
 /-- **Inverse.**  `Y w` is reported as a user of `X` (needing version `need`; the query names version `q` or
 none) exactly when `Y w` is declared and its dependency listing holds `X need`. -/
 theorem C13_uses_inverse (db : Db) (fuel : Nat) (sb : SetupBy) (h : usesInfo db fuel = .ok sb)
